@@ -82,6 +82,7 @@ func (lh *WorkerLoop) Run(ctx context.Context) {
 			return
 
 		case msg := <-lh.MessagesChannel:
+			verifWorkerStep(lh, "msg.taken", 0, 0)
 			parsedMessage := interfaces.ToConsensusMessage(msg)
 			if parsedMessage == nil {
 				lh.logger.Info("LHFLOW LHMSG WORKERLOOP - IGNORING MESSAGE WITH UNKNOWN CONTENT")
@@ -96,6 +97,7 @@ func (lh *WorkerLoop) Run(ctx context.Context) {
 				lh.logger.Info("XXXXXX LHFLOW WORKERLOOP ELECTION, OMG trigger is nil, not triggering election!")
 				continue
 			}
+			verifWorkerStep(lh, "election.taken", uint64(trigger.Hv.Height()), uint64(trigger.Hv.View()))
 			current := lh.state.HeightView()
 			if current.Height() != trigger.Hv.Height() || current.View() != trigger.Hv.View() { // stale election message
 				lh.logger.Info("LHFLOW WORKERLOOP ELECTION - INVALID HEIGHT/VIEW IGNORED - Current: %s, ElectionTrigger: %s",
@@ -113,6 +115,7 @@ func (lh *WorkerLoop) Run(ctx context.Context) {
 				height = receivedBlockWithProof.block.Height()
 			}
 			lh.logger.Debug("LHFLOW UPDATESTATE WORKERLOOP - Received block with H=%d", height)
+			verifWorkerStep(lh, "sync.taken", uint64(height), 0)
 			lh.handleUpdateState(receivedBlockWithProof)
 			lh.logger.Debug("LHFLOW UPDATESTATE WORKERLOOP - Handled block with H=%d", height)
 		}
